@@ -301,4 +301,103 @@ func init() {
 			}
 			r.Sim(lit, f.Name()+"$iter", spec)
 		}})
+
+	register(&Obligation{ID: "C07.r", Props: []string{"C07", "C03", "C06"}, Template: "completeness-loop",
+		Desc: "LevelList.AllTablesForKey / AllTablesForPrefix consult every level: the loop over the deeper levels is left only because the consumer stopped (return inside `if !yield`), never by break, and a level without a candidate table is skipped with continue; sst.Table.Get / ScanPrefix read through a cursor bounded by the table's entries size, so the footer is never parsed as records and the end of the entries is an EOF",
+		Run: func(r *Run) {
+			descend := r.P.FuncObj("dkv/sst", "(*LevelList).DescendLevels")
+			for _, name := range []string{"(*LevelList).AllTablesForKey", "(*LevelList).AllTablesForPrefix"} {
+				f := r.P.Func("dkv/sst", name)
+				info := f.Pkg.TypesInfo
+				n := 0
+				ast.Inspect(f.Decl.Body, func(nd ast.Node) bool {
+					rs, ok := nd.(*ast.RangeStmt)
+					if !ok {
+						return true
+					}
+					call, ok := ast.Unparen(rs.X).(*ast.CallExpr)
+					if !ok || r.P.CalleeFunc(info, call) != descend {
+						return true
+					}
+					n++
+					r.Site(rs.Pos(), f.Name()+": loop over the deeper levels")
+					// statements that leave this loop
+					var visit func(n ast.Node, inInner bool, underNotYield bool)
+					visit = func(n ast.Node, inInner bool, underNotYield bool) {
+						switch x := n.(type) {
+						case nil:
+							return
+						case *ast.FuncLit:
+							return
+						case *ast.BranchStmt:
+							if x.Tok == token.BREAK && !inInner && x.Label == nil {
+								r.Fail(f.Name()+":level-break", x.Pos(), nil, "%s leaves the loop over the deeper levels with break: a level without a candidate table ends the search, so keys that only exist in older levels are reported absent", f.Name())
+							}
+						case *ast.ReturnStmt:
+							if !underNotYield {
+								r.Fail(f.Name()+":level-return", x.Pos(), nil, "%s returns from the loop over the deeper levels although the consumer did not stop", f.Name())
+							}
+						case *ast.IfStmt:
+							uny := underNotYield
+							if u, ok := ast.Unparen(x.Cond).(*ast.UnaryExpr); ok && u.Op == token.NOT {
+								if c, ok := ast.Unparen(u.X).(*ast.CallExpr); ok {
+									if id, ok := c.Fun.(*ast.Ident); ok && id.Name == "yield" {
+										uny = true
+									}
+								}
+							}
+							for _, st := range x.Body.List {
+								visit(st, inInner, uny)
+							}
+							if x.Else != nil {
+								visit(x.Else, inInner, underNotYield)
+							}
+						case *ast.BlockStmt:
+							for _, st := range x.List {
+								visit(st, inInner, underNotYield)
+							}
+						case *ast.ForStmt:
+							visit(x.Body, true, underNotYield)
+						case *ast.RangeStmt:
+							visit(x.Body, true, underNotYield)
+						case *ast.SwitchStmt:
+							visit(x.Body, true, underNotYield)
+						case *ast.CaseClause:
+							for _, st := range x.Body {
+								visit(st, inInner, underNotYield)
+							}
+						}
+					}
+					visit(rs.Body, false, false)
+					return true
+				})
+				if n == 0 {
+					r.Error("undecided: %s no longer ranges over DescendLevels", f.Name())
+				}
+			}
+			bounded := r.P.FuncObj("dkv/storage", "NewBoundedCursor")
+			fileF := r.P.Field("dkv/sst", "Table", "file")
+			sizeF := r.P.Field("dkv/sst", "Table", "entriesSize")
+			for _, name := range []string{"(*Table).Get", "(*Table).ScanPrefix"} {
+				f := r.P.Func("dkv/sst", name)
+				info := f.Pkg.TypesInfo
+				okCur := false
+				ast.Inspect(f.Decl.Body, func(nd ast.Node) bool {
+					call, ok := nd.(*ast.CallExpr)
+					if !ok || r.P.CalleeFunc(info, call) != bounded || len(call.Args) != 3 {
+						return true
+					}
+					r.Site(call.Pos(), f.Name()+": cursor bounded by entriesSize")
+					if prog.SelField(info, call.Args[0]) == fileF && prog.SelField(info, stripConv(info, call.Args[2])) == sizeF {
+						okCur = true
+					} else {
+						r.Fail(f.Name()+":cursor-bound", call.Pos(), nil, "%s does not read through NewBoundedCursor(t.file, _, t.entriesSize): without the end bound the scan runs into the table's footer and parses it as records", f.Name())
+					}
+					return true
+				})
+				if !okCur {
+					r.Fail(f.Name()+":cursor-missing", f.Decl.Pos(), nil, "%s does not create a cursor bounded by the table's entries size", f.Name())
+				}
+			}
+		}})
 }
